@@ -159,7 +159,8 @@ def generations(ctx, shape, w, pre, post, r):
         k = (U(shape.prov),)
         table = {'inv': 'inventories', 'traits': 'resource_provider_traits',
                  'aggs': 'resource_provider_aggregates'}[shape.kind]
-        v = tuple(int(x) for x in shape.version.split('.'))
+        v = tuple(int(x) for x in shape.version.split('.')) \
+            if shape.version != 'sym' else (1, 39)
         if not (shape.kind == 'aggs' and v < (1, 19)):
             changed = rel_diff(pre, post, (table,))
             ga, gb = to_z3(_gen(pa[k])), to_z3(_gen(pb[k]))
@@ -202,7 +203,8 @@ def consumer_iff_allocations(ctx, shape, w, pre, post, r):
 def consumer_attributes(ctx, shape, w, pre, post, r):
     """on an accepted allocation write the consumer carries the project,
     user (and type) the request named"""
-    if r.status >= 400 or shape.kind not in ('alloc', 'reshape'):
+    if r.status >= 400 or shape.kind not in ('alloc', 'reshape') or \
+            shape.version == 'sym':
         return
     cons = _by_key(post, 'consumers')
     proj = {row.vals['external_id']: row.vals['id']
